@@ -44,11 +44,17 @@ class FakeTransport:
         self.closing = False
         self.lost_delivered = False
         self.on_write = None
+        self.held: list = []
 
     def now(self) -> float:
         return self.loop.time() if self.loop is not None else 0.0
 
     def write(self, data) -> None:
+        if not isinstance(data, bytes):
+            # a mutable buffer: remember the object itself -- a transport that queues what it is given (pyserial-asyncio, any
+            # transport under back-pressure) sends it later, so it must not change after the call
+            self.held.append((data, bytes(data)))
+            del self.held[:-64]
         data = bytes(data)
         self.writes.append((self.now(), data))
         if self.on_write is not None:
@@ -56,6 +62,10 @@ class FakeTransport:
 
     def is_closing(self) -> bool:
         return self.closing
+
+    def modified_after_write(self) -> list[tuple[bytes, bytes]]:
+        """(bytes at the time of the write() call, bytes now) for every mutable object handed to write() that changed since."""
+        return [(was, bytes(obj)) for obj, was in self.held if bytes(obj) != was]
 
     def close(self) -> None:
         if self.closing:
